@@ -19,9 +19,17 @@ import (
 	spb "google.golang.org/genproto/googleapis/rpc/status"
 )
 
+// registration is the response queue of one call. gone is closed by the call
+// as soon as it stops reading ch, before it waits for the multiplexer's mutex.
+type registration struct {
+	ch       chan *goatorepo.Rpc
+	gone     chan struct{}
+	goneOnce sync.Once
+}
+
 type RpcMultiplexer struct {
 	rw       types.RpcReadWriter
-	handlers map[uint64]chan *goatorepo.Rpc
+	handlers map[uint64]*registration
 
 	ctx    context.Context
 	cancel context.CancelFunc
@@ -36,7 +44,7 @@ type RpcMultiplexer struct {
 func NewRpcMultiplexer(rw types.RpcReadWriter) *RpcMultiplexer {
 	rm := &RpcMultiplexer{
 		rw:       rw,
-		handlers: make(map[uint64]chan *goatorepo.Rpc),
+		handlers: make(map[uint64]*registration),
 		codec:    encoding.GetCodecV2(proto.Name),
 	}
 
@@ -63,8 +71,8 @@ func (rm *RpcMultiplexer) closeError(err error) {
 
 	if err != nil {
 		rm.rErr = err
-		for id, ch := range rm.handlers {
-			close(ch)
+		for id, reg := range rm.handlers {
+			close(reg.ch)
 			delete(rm.handlers, id)
 		}
 	}
@@ -86,8 +94,8 @@ func (rm *RpcMultiplexer) CallUnaryMethod(
 	respChan := make(chan *goatorepo.Rpc, 1)
 
 	verifhook.At("mux.register.window", streamId)
-	rm.registerHandler(streamId, respChan)
-	defer rm.unregisterHandler(streamId)
+	reg := rm.registerHandler(streamId, respChan)
+	defer rm.unregisterHandler(streamId, reg)
 
 	rpc := goatorepo.Rpc{
 		Id:     streamId,
@@ -147,10 +155,10 @@ func (rm *RpcMultiplexer) NewStreamReadWriter(
 
 	respChan := make(chan *goatorepo.Rpc, 1)
 	verifhook.At("mux.register.window", streamId)
-	rm.registerHandler(streamId, respChan)
+	reg := rm.registerHandler(streamId, respChan)
 
 	teardown := func() {
-		rm.unregisterHandler(streamId)
+		rm.unregisterHandler(streamId, reg)
 	}
 
 	rw := internal.NewFnReadWriter(
@@ -199,31 +207,40 @@ func (rm *RpcMultiplexer) handleResponse(rpc *goatorepo.Rpc) {
 	rm.mutex.Lock()
 	defer rm.mutex.Unlock()
 
-	ch, ok := rm.handlers[rpc.GetId()]
+	reg, ok := rm.handlers[rpc.GetId()]
 	if !ok {
 		// TODO: getting log lines from here after cancelling streams
 		log.Error().Msgf("Mux: unhandled Rpc %d", rpc.GetId())
 		return
 	}
-	ch <- rpc
-}
-
-func (rm *RpcMultiplexer) registerHandler(id uint64, c chan *goatorepo.Rpc) {
-	rm.mutex.Lock()
-	defer rm.mutex.Unlock()
-
-	rm.handlers[id] = c
-}
-
-func (rm *RpcMultiplexer) unregisterHandler(id uint64) {
-	rm.mutex.Lock()
-	defer rm.mutex.Unlock()
-
-	if ch, ok := rm.handlers[id]; ok {
-		close(ch)
+	select {
+	case reg.ch <- rpc:
+	case <-reg.gone:
+		// The call has finished and will never read this; drop it rather
+		// than block while holding the mutex its unregisterHandler needs.
 	}
+}
 
-	delete(rm.handlers, id)
+func (rm *RpcMultiplexer) registerHandler(id uint64, c chan *goatorepo.Rpc) *registration {
+	rm.mutex.Lock()
+	defer rm.mutex.Unlock()
+
+	reg := &registration{ch: c, gone: make(chan struct{})}
+	rm.handlers[id] = reg
+	return reg
+}
+
+func (rm *RpcMultiplexer) unregisterHandler(id uint64, reg *registration) {
+	// Release a handleResponse blocked on our queue first: it holds the mutex.
+	reg.goneOnce.Do(func() { close(reg.gone) })
+
+	rm.mutex.Lock()
+	defer rm.mutex.Unlock()
+
+	if cur, ok := rm.handlers[id]; ok && cur == reg {
+		close(reg.ch)
+		delete(rm.handlers, id)
+	}
 }
 
 func (rm *RpcMultiplexer) readErrorIfDone() error {
